@@ -80,6 +80,12 @@ let () =
                dump_reg r regs.(r)
              | "O" -> let r = a.(0) in regs.(r) <- both (reorder O (rest 1)) regs.(r); dump_reg r regs.(r)
              | "I" -> let r = a.(0) and q = a.(1) in regs.(q) <- both (indexed_subset (rest 2)) regs.(r); dump_reg q regs.(q)
+             | "K" -> let r = a.(0) and q = a.(1) and t = a.(2) in
+               let idx = rest 3 in
+               let x = both (indexed_subset idx) regs.(r) in
+               let cidx = complement idx (nat_of_int (List.length regs.(r).inp)) in
+               let y = both (indexed_subset cidx) regs.(r) in
+               regs.(q) <- x; regs.(t) <- y; dump_reg q x ^ dump_reg t y
              | "T" -> let r = a.(0) and q = a.(1) in
                let (x, y) = both2 (split_at_element (nat_of_int a.(2))) regs.(r) in
                regs.(r) <- x; regs.(q) <- y; dump_reg r x ^ dump_reg q y
